@@ -33,7 +33,7 @@ SHARD_TIMEOUT = {"quick": 240, "thorough": 3000}
 PAR = 8
 
 STATES = ["idle", "blocked", "busy", "sleep", "swallow_kbi", "sigint_ignored", "stopped", "killed", "daemon_threads", "flood",
-          "fds_closed_alive", "execv_sleep"]
+          "fds_closed_alive", "execv_sleep", "killed_pipe_held"]
 GEVENT_STATES = ["idle", "blocked", "gevent_sleep", "gevent_busy"]
 
 
@@ -68,7 +68,7 @@ def gen_case(rng):
                 g["execmodel"] = "thread"
                 if g["activity"].startswith("gevent") or g["activity"] == "sigint_ignored":
                     g["activity"] = "blocked"
-                if g["activity"] in ("stopped", "killed", "fds_closed_alive", "execv_sleep"):
+                if g["activity"] in ("stopped", "killed", "fds_closed_alive", "execv_sleep", "killed_pipe_held"):
                     g["activity"] = "sleep"  # same process as the master: would stop/kill/replace the master itself
             has_via |= spec == "via"
         gws.append(g)
@@ -201,6 +201,10 @@ def run_shard(spec):
         cases[1] = {"gateways": [{"spec": "popen", "id": "g0", "execmodel": "thread", "activity": "stopped"},
                                  {"spec": "socket", "id": "g1", "execmodel": "thread", "activity": "idle", "master": "g0"}],
                     "action": "terminate", "timeout": 0, "has_via": False, "pre_exit": []}
+        # a proxied member that is dead although its relay has not seen the end of its output
+        cases[3] = {"gateways": [{"spec": "popen", "id": "g0", "execmodel": "thread", "activity": "idle"},
+                                 {"spec": "via", "id": "g1", "execmodel": "thread", "activity": "killed_pipe_held", "master": "g0"}],
+                    "action": "terminate", "timeout": 0.5, "has_via": True, "pre_exit": []}
         # stuck members retired with exit(), their ids taken over by replacements before terminate() runs
         cases[2] = {"gateways": [{"spec": "popen", "id": "g0", "execmodel": "thread", "activity": "stopped"},
                                  {"spec": "python", "id": "g1", "execmodel": "main_thread_only", "activity": "sigint_ignored"},
